@@ -358,7 +358,7 @@ namespace Pistache
 
             std::ostream os(&stream.buf_);
             os << std::hex << len << crlf;
-            os << val << crlf;
+            os << std::dec << val << crlf;
             if (!os)
             {
                 throw Error("Response exceeded buffer size");
